@@ -25,6 +25,8 @@ def special_programs(rng):
                     "shadow spin { assert (== (spin 0) 0) }\n"
                     "fn main() -> int {\n    let mut i: int = 0\n    while (< i %d) {\n        (print \"%s-\")\n        (print i)\n        (print \" sum\")\n        (print (spin %d))\n        (println \" end-%s\")\n        set i (+ i 1)\n    }\n    return %d\n}\nshadow main { assert (== 1 1) }\n"
                     % (n, tag, rng.choice([2000, 20000, 60000]), tag, rng.randrange(0, 200))))
+    for nm, e in (("exit-neg1", "(- 0 1)"), ("exit-neg200", "(- 0 200)"), ("exit-300", "300"), ("exit-255", "255")):
+        out.append((nm, "fn main() -> int {\n    (println \"leaving\")\n    return %s\n}\nshadow main { assert (== 1 1) }\n" % e))
     out.append(("assert-fail", "fn main() -> int {\n    (println \"before the failure\")\n    assert (== 1 2)\n    (println \"never\")\n    return 0\n}\nshadow main { assert (== 1 1) }\n"))
     out.append(("oob", "fn main() -> int {\n    let a: array<int> = [1, 2, 3]\n    (println \"before\")\n    (println (at a 9))\n    return 0\n}\nshadow main { assert (== 1 1) }\n"))
     # output that does not end in a newline when the program stops - normally, by a failed assertion, by an out-of-range index
@@ -177,7 +179,9 @@ def run(ctx):
             check(m, got, "sequential")
             seq_frames.append(got.get("frames"))
             ctx.case("seq:" + m["name"] + m["source"])
-        for m in mods[:6]:
+        # the shipped client: the first few modules plus the exit statuses a process can end with (negative, above 255, faults)
+        shipped = mods[:6] + [m for m in mods if m["name"] in ("exit-neg1", "exit-neg200", "exit-300", "exit-255", "assert-fail", "oob")]
+        for m in shipped:
             g2 = d.exec_via_nano_vm(m["path"])
             ctx.evals += 1
             if not (g2.get("out") == m["standalone"]["out"] and g2.get("exit") == m["standalone"]["exit"]):
